@@ -25,7 +25,7 @@ RULE = ('case kinds: (faulty_server) a scripted peer plays the server side of th
 ASSUMPTIONS = ['15 s separates "finite" from "hung": no timeout inside the handshake code exceeds 5 s', 'the scripted peer closes its sockets at the latest 1.5 s after going silent']
 SHRINK = 'none'
 TIME_BUDGET = {'quick': 170, 'thorough': 1700}
-REQUIRED = {'quick': {'kind:faulty_server': 100, 'kind:child_dies': 40, 'kind:unknown_ctx': 4, 'kind:unsendable_work': 20, 'step:addr_msg': 50, 'step:info_msg': 12, 'server_killed_mid_request': 25},
+REQUIRED = {'quick': {'kind:faulty_server': 100, 'kind:child_dies': 40, 'kind:unknown_ctx': 4, 'kind:unsendable_work': 20, 'kind:unloadable_work': 15, 'step:addr_msg': 50, 'step:info_msg': 12, 'server_killed_mid_request': 25},
             'thorough': {'kind:faulty_server': 350, 'kind:child_dies': 130}}
 LIMIT = 15.0
 
@@ -52,7 +52,10 @@ def strategy(tier):
     # start-up fails before anything is sent: the work (target / arguments / initial state) cannot be serialised
     us = st.fixed_dictionaries({'kind': st.just('unsendable_work'), 'worker': st.sampled_from(['remote', 'p_remote', 'remote', 'p_remote', 'process', 'p_process']),
                                 'what': st.sampled_from(['lock_in_args', 'lock_in_kwargs', 'lambda_target', 'local_function_target', 'lock_in_init_state', 'socket_in_args'])})
-    return st.one_of(fs, fs, fs, cd, cd, uc, ur, sd, sd, us)
+    # start-up fails on the server side: the worker object arrives intact but cannot be rebuilt there (with and without a context)
+    ul = st.fixed_dictionaries({'kind': st.just('unloadable_work'), 'worker': st.sampled_from(['remote', 'p_remote']), 'in_context': st.booleans(),
+                                'what': st.sampled_from(['init_state', 'userid', 'args'])})
+    return st.one_of(fs, fs, fs, cd, cd, uc, ur, sd, sd, us, ul)
 
 
 def exhaustive(tier, shard, nshards):
@@ -281,6 +284,32 @@ def run_case(case, ctx):
 
             def ctor():
                 return cls(target, args=a, kwargs=k, name=IC.fresh_name(ctx, 'c20'), **kw)
+        elif kind == 'unloadable_work':
+            from pyworkers.remote_context import RemoteContext
+            srv = IC.server(ctx)
+            before = set(census(ctx.tag))
+            what = case['what']
+            site = f'{kind}:{worker}:{what}' + (':in_context' if case['in_context'] else '')
+            out.label('unloadable:' + what + (':in_context' if case['in_context'] else ''))
+            bad = vtargets.NeedsArgs(1, 2)        # pickles fine, cannot be rebuilt by the receiver (constructor needs two arguments)
+            kw = {'host': srv.addr}
+            if case['in_context']:
+                cid = 700 + ctx.shard
+                rc = bounded(RemoteContext, 20, cid, host=srv.addr, target=vtargets.ctx_t1)
+                res['ctx'] = rc
+                kw['context'] = cid
+                time.sleep(0.1)
+                before = set(census(ctx.tag))      # (the context's helper process is not a child of the construction under test)
+            a = [3]
+            if what == 'init_state':
+                kw['init_state'] = bad
+            elif what == 'userid':
+                kw['userid'] = bad
+            else:
+                a = [bad]
+
+            def ctor():
+                return cls(None if case['in_context'] else vtargets.echo2, args=a, name=IC.fresh_name(ctx, 'c20'), **kw)
         elif kind == 'unreachable':
             s = socket.socket(); s.bind(('127.0.0.1', 0)); dead = s.getsockname(); s.close()
 
@@ -342,7 +371,7 @@ def run_case(case, ctx):
         if fs is not None:
             res['cut'] = fs.effective_cut
             res['msg_len'] = fs.msg_len
-        out.nontrivial = kind in ('child_dies', 'unknown_ctx', 'server_dies', 'unsendable_work') or (kind == 'faulty_server' and (case['step'] not in ('addr_msg', 'info_msg') or (fs.effective_cut or 0) > 0))
+        out.nontrivial = kind in ('child_dies', 'unknown_ctx', 'server_dies', 'unsendable_work', 'unloadable_work') or (kind == 'faulty_server' and (case['step'] not in ('addr_msg', 'info_msg') or (fs.effective_cut or 0) > 0))
         out.key = dict(case, eff=res.get('cut'), n=res.get('n'))
         if res['ctor'] == 'blocked':
             out.viol('constructor_hangs', site, f'constructor did not return or raise within {LIMIT}s ({res})')
@@ -376,6 +405,12 @@ def run_case(case, ctx):
                 pass
         if fs is not None:
             fs.close()
+        if res.get('ctx') is not None:
+            try:
+                bounded(res['ctx'].close, 20)
+            except BaseException:
+                pass
+            res.pop('ctx', None)
         if kind == 'server_dies':
             try:
                 if psrv.pid and pid_alive(psrv.pid):
@@ -383,7 +418,7 @@ def run_case(case, ctx):
             except Exception:
                 pass
             kill_pids([p for p in census(ctx.tag) if p not in before])
-        if kind in ('unknown_ctx', 'child_dies', 'unsendable_work') and worker.endswith('remote') and not IC.server_healthy(ctx):
+        if kind in ('unknown_ctx', 'child_dies', 'unsendable_work', 'unloadable_work') and worker.endswith('remote') and not IC.server_healthy(ctx):
             # a wedged or dead server is C11's business; here it only needs replacing
             out.label('server_replaced')
             IC.stop_server(ctx)
